@@ -22,7 +22,7 @@ INFO = {
                    "modulus bit length (BIT_MASK == 2^bitlen(PRIME)-1; Field255 clears bit 255) before the `>= PRIME -> "
                    "ModulusOverflow` refusal; from_random_rejection maps Ok to Break, ModulusOverflow to Continue and "
                    "nothing else; generate_random reads exactly ENCODED_SIZE fresh bytes per attempt. The byte values "
-                   "produced by the external sponge/AES/HMAC crates and the equality of re-chunked reads as values are NOT "
+                   "(B) code handed a stream by reference takes exactly what it returns: no buffering Prng over a borrowed stream, the pair value type draws two elements, a sampled Seed is one byte fill; the range test of Field255 covers all 32 bytes from a zero start. The bytes produced by the external sponge/AES/HMAC crates and the equality of re-chunked reads as values are NOT "
                    "decided.",
     "trusted_base": ["rustc type checker and MIR construction (nightly)", "expression reconstruction over MIR (sa/expr.py)",
                      "external crates sha3/aes/ctr/hmac implement incremental absorption and streaming reads"],
